@@ -8,7 +8,7 @@ TRUSTED_COMMON = [
 
 PROPS = {
     'C18': dict(
-        vx_units=['seal'], kx=[],
+        vx_units=['seal', 'ptsize'], kx=[],
         design_ref='DESIGN.md section 5, C18',
         not_covered=[
             'O_APPEND writes (the gate is applied to pwrite on a descriptor whose flags come from the request) and O_TRUNC in open/create: kernel semantics behind libc calls, outside contract reach (DESIGN.md section 7, O1)',
